@@ -171,3 +171,31 @@ fn c32_repr_eq_ord_by_content() {
     assert!(e1 == e2 && matches!(e2, Repr::Inline { .. }));
     drop(heap);
 }
+
+/// Representation dimension of the constructors: a `Text` held in the STATIC representation
+/// (literals, `Text::new()`) converts to an `Identifier` exactly when its content is an identifier —
+/// the same answer as for the same content held inline.
+#[kani::proof]
+#[kani::unwind(12)]
+fn c32_static_text_to_identifier() {
+    const CASES: [&str; 7] = ["", "9lives", "_x", "a b", "a1_B", "Z", "a-b"];
+    let mut i = 0;
+    while i < CASES.len() {
+        let s = CASES[i];
+        // SAFETY: none of the literals contains a NUL byte.
+        let stat = unsafe { Text::__from_literal(s) };
+        assert!(matches!(stat.0, Repr::Static(_)));
+        let want = spec_ident(s.as_bytes());
+        let got_static = Identifier::try_from(stat).is_ok();
+        let got_inline = match Text::from_str(s) {
+            Ok(t) => Identifier::try_from(t).is_ok(),
+            Err(_) => panic!("valid text rejected"),
+        };
+        assert!(got_static == want && got_inline == want);
+        i += 1;
+    }
+    match Identifier::try_from(Text::new()) {
+        Ok(_) => panic!("empty identifier"),
+        Err(_) => {}
+    }
+}
